@@ -719,6 +719,10 @@ def format_members(ctx, fp, cap=40):
 
 
 DIRECTED = [
+    # contexts that are only known at run time (computed from the length of a list, chosen by a branch): nothing may be assumed of
+    # what is rounded under them beyond what every context guarantees
+    'with fp.MPFloatContext(len(xs) + 2):\n        a = x / 3 + y\n        b = a * a\n    with (P3 if x > 0 else H8):\n        c = y / 3\n        d = c + x\n    return (a, b, c, d)',
+    'k = 2\n    for e in xs:\n        k = k + 1\n    with fp.MPFixedContext(-k):\n        a = x / 3\n        b = a + y / 7\n    return (a, b, a * b)',
     # thorough seed 0: a -0 born of (+0) * (negative) in the first analysed iteration of a loop of known length reaches a variable
     # read whose format was recorded in the last iteration (F46 by provenance)
     'for i1 in range(len(xs)):\n        v2 = ((-2.5 if i1 < y else y) * (x * i1))\n    with fp.FP16:\n        v3 = 7\n        if v3 != (y * v3):\n            k4 = 0\n            while k4 < 3:\n                y *= 0\n                with fp.INTEGER:\n                    k4 = k4 + 1\n        else:\n            with U4:\n                v3 *= x\n                x += (y * x)\n        v5 = fp.round(fp.round(v3))\n    for i6 in range(2):\n        x += fp.fma(2, i6, i6)\n    x = fp.trunc(abs(v3))\n    for i7 in range(2):\n        with Q2:\n            if (v5 + -1) == -2.5:\n                y += (2 + y)\n            else:\n                v3 += min(y, 0.5)\n                v5 *= (v3 + -1)\n    return min((v3 + y), v3)',
